@@ -491,14 +491,14 @@ def subchecks(tier):
     variants = [("cold", "plain"), ("cold", "l1"), ("cold", "ridge"), ("cold", "l1ridge"), ("warm", "plain"), ("warm", "pen")]
     for init, var in variants:
         for grp in ("kkt", "ref"):
-            subs.append(SubCheck(f"hals/{init}/{var}/{grp}", _hals_case(var, init), o_hals(grp), quick=25, thorough=300,
+            subs.append(SubCheck(f"hals/{init}/{var}/{grp}", _hals_case(var, init), o_hals(grp), quick=25, thorough=150,
                                  budget_quick=75))
-            subs.append(SubCheck(f"fista/{init}/{var}/{grp}", _fista_case(var, init), o_fista(grp), quick=30, thorough=300,
+            subs.append(SubCheck(f"fista/{init}/{var}/{grp}", _fista_case(var, init), o_fista(grp), quick=30, thorough=150,
                                  budget_quick=75))
-    subs.append(SubCheck("hals/epsilon/kkt", _hals_case("pen", "any", eps=True), o_hals("kkt"), quick=30, thorough=300, budget_quick=75))
-    subs.append(SubCheck("hals/cold_zero_init/kkt", _hals_case("plain", "cold", zero_init=True), o_hals("kkt"), quick=30, thorough=300, budget_quick=75))
-    subs.append(SubCheck("hals/cold_zero_init/ref", _hals_case("pen", "cold", zero_init=True), o_hals("ref"), quick=30, thorough=300, budget_quick=75))
-    subs.append(SubCheck("fista/kron_list/kkt_ref", _fista_kron_case(), o_fista_kron, quick=60, thorough=800, budget_quick=75))
+    subs.append(SubCheck("hals/epsilon/kkt", _hals_case("pen", "any", eps=True), o_hals("kkt"), quick=30, thorough=150, budget_quick=75))
+    subs.append(SubCheck("hals/cold_zero_init/kkt", _hals_case("plain", "cold", zero_init=True), o_hals("kkt"), quick=30, thorough=150, budget_quick=75))
+    subs.append(SubCheck("hals/cold_zero_init/ref", _hals_case("pen", "cold", zero_init=True), o_hals("ref"), quick=30, thorough=150, budget_quick=75))
+    subs.append(SubCheck("fista/kron_list/kkt_ref", _fista_kron_case(), o_fista_kron, quick=60, thorough=400, budget_quick=75))
     for init in ("cold", "warm"):
         for grp in ("kkt", "ref"):
             subs.append(SubCheck(f"active_set/{init}/{grp}", _as_case(init), o_as(grp), quick=400, thorough=4000))
